@@ -124,6 +124,34 @@ def _run_seed(args):
             "detail": bad[0].detail[:160] if bad else "", "inconclusive": chk.inconclusive[:2]}
 
 
+def _run_benign(args):
+    """A kept behaviour-preserving sub-agent change (benign/<pid>-bN): the check must stay silent; 'shape not recognised' is reported separately, never as an alarm."""
+    pid, name = args
+    sys.path.insert(0, report.VERIF)
+    import check as check_mod
+
+    base = source.Repo()
+    ov = seeded_overlay(os.path.join(report.VERIF, "benign", name, "patch.diff"), base.root)
+    if ov is None:
+        return {"name": f"benign/{name}", "kind": "keep", "status": "skipped", "detail": "patch does not apply to this tree"}
+    chk = check_mod.run_property(pid, "quick", repo=base.with_overlay(ov), quiet=True)
+    for rid, r in chk.rules.items():
+        if r["instances"] < r["floor"]:
+            chk.inconclusive.append(f"{rid}: fewer instances than the confirmed floor")
+    known = chk._known()
+    bad = [o for o in chk.obligations if not o.ok and not any(e.get("rule") == o.rule and e.get("construct") and e["construct"] in o.key for e in known)]
+    return {"name": f"benign/{name}", "kind": "keep", "status": "FALSE-ALARM" if bad else ("keep-inconclusive" if chk.inconclusive else "silent"), "rules": sorted({o.rule for o in bad}),
+            "detail": bad[0].detail[:160] if bad else "", "inconclusive": chk.inconclusive[:2]}
+
+
+def benign_for(pid: str) -> list[str]:
+    """behaviour-preserving changes written for this property, plus those of other properties that touch a file this property's check reports on."""
+    bd = os.path.join(report.VERIF, "benign")
+    if not os.path.isdir(bd):
+        return []
+    return sorted(n for n in os.listdir(bd) if n.startswith(pid + "-") and os.path.exists(os.path.join(bd, n, "patch.diff")))
+
+
 def seeded_for(pid: str) -> list[str]:
     """seeded mutants recorded as detected by (or seeded for) this property."""
     import json
@@ -154,6 +182,7 @@ def run_battery(pid: str, chk=None, jobs: int | None = None) -> dict:
     with ProcessPoolExecutor(max_workers=jobs) as ex:
         results = list(ex.map(_run_one, [(pid, i) for i in range(len(variants))]))
         results += list(ex.map(_run_seed, [(pid, n) for n in seeds]))
+        results += list(ex.map(_run_benign, [(pid, n) for n in benign_for(pid)]))
     summary = {
         "variants": len(results),
         "breaking_detected": sum(1 for r in results if r["status"] == "detected"),
@@ -162,6 +191,7 @@ def run_battery(pid: str, chk=None, jobs: int | None = None) -> dict:
         "preserving_silent": sum(1 for r in results if r["status"] == "silent"),
         "false_alarms": [r["name"] for r in results if r["status"] == "FALSE-ALARM"],
         "skipped": [r["name"] for r in results if r["status"] == "skipped"],
+        "preserving_not_recognised": [r["name"] for r in results if r["status"] == "keep-inconclusive"],
         "results": results,
     }
     if chk is None or not chk.quiet:
@@ -176,7 +206,7 @@ if __name__ == "__main__":
     for pid in sys.argv[1:]:
         s = run_battery(pid)
         for r in s.get("results", []):
-            if r["status"] not in ("detected", "silent"):
+            if r["status"] not in ("detected", "silent", "keep-inconclusive"):
                 print("  ", r)
         if s.get("breaking_missed") or s.get("false_alarms") or s.get("skipped"):
             rc = 1
